@@ -700,6 +700,8 @@ def canon_atom(a):
         if x[0] == "call":
             return ("callres", x[1], tuple(_region(y) for y in x[2]), v)
         return ("is", nshow(x), v)
+    if k == "isin":
+        return ("isin", nshow(a[1]), tuple(a[2]))
     if k == "pred":
         p, args, pos = a[1], a[2], a[3]
         if p in EMPTY_PREDS:
